@@ -1766,6 +1766,11 @@ def check_C03(tier, seed):
                 sc_cases.append((t["name"], "blank-lines", v, exp))
             if "\r" not in t["yaml"]:
                 sc_cases.append((t["name"], "crlf", t["yaml"].replace("\n", "\r\n"), exp))
+            # the same document without its final line break (the last token then ends the INPUT: a ':' , a word, a
+            # closing bracket or quote as very last character); block scalars are left out, their value may depend on it
+            y = t["yaml"]
+            if y.endswith("\n") and not y.endswith("\n\n") and "|" not in y and ">" not in y and "#" not in y.rsplit("\n", 2)[-2]:
+                sc_cases.append((t["name"], "no-final-break", y[:-1], exp))
         sl = [enc(c[2]) for c in sc_cases]
         s_impl = {b: run_hx(["events", b], sl) for b in ("str", "iter")}
         s_model = run_mx(["events", "str"], sl)
